@@ -14,6 +14,7 @@ opaque as *unknown*, never as a match.
 import re
 
 from . import facts as F
+from . import rx
 from .facts import src
 
 WINNOW_LEAVES = {
@@ -1522,6 +1523,28 @@ class Builder:
                 cs_ = CHAR_CLASS.get(b["m"])
                 if cs_ is not None:
                     return cs_in(cs_)
+            # c.is_digit(R): the digits of radix R (2..=36), letters in both cases
+            if isvar(b["recv"]) and b["m"] == "is_digit" and len(b["args"]) == 1:
+                r_ = rx.int_const(b["args"][0])
+                if r_ is not None and 2 <= r_ <= 36:
+                    return cs_in(radix_digits(r_))
+            # c.to_digit(R).is_some() / .is_none()
+            if b["m"] in ("is_some", "is_none") and not b["args"]:
+                i_ = strip_refs(b["recv"])
+                if i_.get("k") == "mcall" and i_["m"] == "to_digit" and isvar(i_["recv"]) and len(i_["args"]) == 1:
+                    r_ = rx.int_const(i_["args"][0])
+                    if r_ is not None and 2 <= r_ <= 36:
+                        return cs_in(radix_digits(r_)) if b["m"] == "is_some" else cs_notin(radix_digits(r_))
+            # ['a', 'b'].contains(&c) / ('0'..='7').contains(&c) / CONST.contains(&c): the set the collection denotes
+            if b["m"] == "contains" and len(b["args"]) == 1 and isvar(b["args"][0]):
+                coll = strip_refs(recv_)
+                while coll.get("k") == "paren":
+                    coll = strip_refs(coll["e"])
+                if coll.get("k") in ("array", "tuple", "range"):
+                    got = self.pred(coll, getattr(self, "_pred_env", {}))
+                    self._pred_env = getattr(self, "_pred_env", {})
+                    if got is not None and got[0] == "cs":
+                        return got[1]
             return None
         if k == "call" and b["f"]["k"] == "path" and len(b["args"]) == 1 and isvar(b["args"][0]):
             # UFCS: AsChar::is_space(c), char::is_ascii_digit(&c)
@@ -1580,6 +1603,14 @@ CHAR_CLASS = {
     "is_ascii_lowercase": "".join(c for c in ALPHA if c.islower()),
     "is_ascii_punctuation": "!\"#$%&'()*+,-./:;<=>?@[\\]^_`{|}~",
 }
+
+
+def radix_digits(r):
+    """The characters char::is_digit(r) / to_digit(r) accept."""
+    ds = "0123456789"[: min(r, 10)]
+    if r > 10:
+        ds += "".join(chr(ord("a") + i) + chr(ord("A") + i) for i in range(r - 10))
+    return ds
 
 
 class Grammar:
